@@ -62,6 +62,11 @@ check("C20", "fault_enumeration",
       "Process kill only (no power loss); task order must be sequential (single task or -v) for the operation index to be meaningful; the expected new content is the content after an undisturbed run.",
       "exhaustive crash-point and torn-write enumeration at system-call boundaries of the real binary (ptrace fault injector)", "DESIGN.md#c20", engine="ptsup")
 
+check("C06", "exploration",
+      "Well-formed documents are generated by grammar (optional XML declaration and DOCTYPE with internal subset; every content sequence of <=3 (thorough <=4) items over 37 text chunks, CDATA variants incl. ]]> splits, comments, PIs and child elements; nested children; every attribute value of <=4 (<=5) symbols over quotes and references to tab/LF/CR/space in both quote kinds), minified with KeepWhitespace off/on, and compared through an own XML reader: output well-formed (own tokenizer + encoding/xml strict), same markup events, attributes equal after XML 1.0 attribute-value normalisation, processing instructions identical, and per text run a matcher that allows collapsible white-space runs to shrink (to nothing only next to a tag and only without KeepWhitespace) but never joins, splits or drops words and keeps CDATA characters exact.",
+      "Trusts the own tokenizer/normaliser and encoding/xml; DTD-declared entities and attribute types are not interpreted; processing instructions and comments are transparent for white-space runs.",
+      "bounded exhaustive grammar enumeration vs independent infoset reader", "DESIGN.md#c06")
+
 ALL = ["C%02d" % i for i in range(1, 21)]
 NOT_YET = {p: "check not built yet in this revision (planned, see DESIGN.md section 4); not claimed until its command exists" for p in ALL if p not in CHECKS}
 
